@@ -25,13 +25,16 @@ class Lemma:
     """forall var in [lo, hi]: claim   proved by induction ('up' from lo or
     'down' from hi) or directly (induction=None)."""
 
-    def __init__(self, name, var, lo, hi, claim, induction="up", via=()):
+    def __init__(self, name, var, lo, hi, claim, induction="up", via=(), assume=True):
         self.name, self.var, self.lo, self.hi, self.claim = name, var, lo, hi, claim
         self.induction = induction
         # via: instance facts (each proved from the axioms first); the claim
         # is then proved from these alone, quantifier-free, so that the
         # nonlinear solver is not drowned by quantified axioms
         self.via = list(via)
+        # assume=False: the lemma is a stated consequence (proved, reported) that
+        # later obligations do not need; keeping it out keeps their queries small
+        self.assume = assume
 
 
 class Contract:
